@@ -23,7 +23,25 @@ for m in sorted(glob.glob(os.path.join(V, "seeded", "*", "meta.json"))):
     j = json.load(open(m))
     srows.append(f"| {j['id']} | {j['property']} | {j['needs_to_manifest'].replace('|', chr(92) + '|')} | {j['detected_by_check']} |")
 seeded = "| seed | prop | what it needs in order to manifest | detected by `./check <prop>` |\n|---|---|---|---|\n" + "\n".join(srows)
-for name, body in (("FINDINGS", findings), ("SEEDED", seeded)):
+# what every check enumerates today: taken from the check modules themselves (text only, nothing is imported)
+import ast
+rules = []
+for i in range(1, 21):
+    src = open(os.path.join(V, "checks", f"c{i:02d}.py")).read()
+    vals = {}
+    for node in ast.parse(src).body:
+        if isinstance(node, ast.Assign) and len(node.targets) == 1 and isinstance(node.targets[0], ast.Name) \
+                and node.targets[0].id in ("PROP", "LEVEL", "RULE", "ASSUMPTIONS"):
+            try:
+                vals[node.targets[0].id] = ast.literal_eval(node.value)
+            except Exception:
+                vals[node.targets[0].id] = None
+    rule = vals.get("RULE") or "(RULE is computed at import time - see the module)"
+    ass = vals.get("ASSUMPTIONS") or []
+    rules.append(f"### {vals.get('PROP', 'C%02d' % i)} ({vals.get('LEVEL')})\n\n*Enumeration rule.* {rule}\n\n*Assumptions.*\n"
+                 + "\n".join(f"- {a}" for a in ass))
+rules = "\n\n".join(rules)
+for name, body in (("FINDINGS", findings), ("SEEDED", seeded), ("RULES", rules)):
     pat = re.compile(rf"(<!-- {name}:BEGIN -->\n).*?(\n<!-- {name}:END -->)", re.S)
     if not pat.search(s):
         raise SystemExit(f"marker {name} missing in DESIGN.md")
